@@ -27,8 +27,8 @@ func TestMain(m *testing.M) { os.Exit(evid.Main(m)) }
 
 // Rec is the stored value type.
 type Rec struct {
-	A string `json:"a"`
-	B string `json:"b"`
+	A string `json:"a,omitempty"` // an empty field is absent from the stored JSON
+	B string `json:"b,omitempty"`
 }
 
 // keyBytes maps a field to an index key: "~nil" is "not indexed", '~' stands for byte 0xff.
@@ -517,7 +517,9 @@ func runSequential(c Case) (r seqResult) {
 	return
 }
 
-var idAlpha = []string{"1", "2", "px", "a", "ab", "b"} // "px" starts with characters of the prefix "pfx."
+// "px" starts with characters of the prefix "pfx."; "ia;" is, in a store without prefix, the
+// database key right after every entry of index "ia" (index name + ':' incremented)
+var idAlpha = []string{"1", "2", "px", "a", "ab", "b", "ia;"}
 
 func describeModel(m map[string]Rec) string {
 	var ks []string
